@@ -16,7 +16,7 @@ from ..sim import net
 from ..sim.appsim import AppSim, exc_site
 
 PROPERTY_ID = 'C18'
-RULE = ('Histories on one SvsInst (last_used_seq_num 0..3, 0..2 publications before start()) started on appv2.NDNApp (recording face, '
+RULE = ('Histories on one SvsInst (last_used_seq_num -1..3, 0..2 publications before start()) started on appv2.NDNApp (recording face, '
         'virtual time, drawn timer jitter): receive(vector) built '
         'relative to the current local vector - newer / older / incomparable / equal / unknown nodes / own entry above own sequence / '
         'malformed (entry without seq, without node id, truncated TLV, wrong component type, empty) - delivered as a signed sync '
@@ -95,7 +95,7 @@ def decode_sv_comp(comp):
 
 
 def nz_(d):
-    return {bytes(k_): v for k_, v in d.items() if v}
+    return {bytes(k_): v for k_, v in d.items() if v > 0}
 
 
 def run_case(case):
@@ -171,7 +171,7 @@ def _run(sim, case, r):
     sup = None           # merge of the vectors heard during the running suppression period
     sup_heard_n = 0
     sup_start = 0.0
-    if nz_(inst.local_sv) != {k_: v for k_, v in model.items() if v}:
+    if nz_(inst.local_sv) != {k_: v for k_, v in model.items() if v > 0}:
         r.bad('C18/local-vector-after-start', f'{dict(inst.local_sv)} != {model}')
         return
 
@@ -194,7 +194,7 @@ def _run(sim, case, r):
 
     def nz(d):
         """A vector entry with sequence number 0 says the same as no entry."""
-        return {k_: v for k_, v in d.items() if v}
+        return {k_: v for k_, v in d.items() if v > 0}
 
     def local_now():
         return nz({bytes(k): v for k, v in inst.local_sv.items()})
@@ -288,6 +288,7 @@ def _run(sim, case, r):
             if 'pending' in cb_publishes:
                 for a_ in allowed:
                     a_[me_key] = a_.get(me_key, model[me_key]) + 1
+                allowed = [nz(a_) for a_ in allowed]
                 flags.add('publish-in-callback')
             if got not in allowed:
                 if any(got.get(k_, 0) < v for k_, v in before.items()):
@@ -299,11 +300,11 @@ def _run(sim, case, r):
                 else:
                     r.bad('C18/merge-not-entrywise-max', f'{before} + {entries} -> {got}, expected {allowed[0]}')
                 return
-            me_seq = model[me_key]
             published_in_cb = cb_publishes.pop('pending', None)
+            me_seq = model[me_key] + (1 if published_in_cb is not None else 0)
             model.clear()
             model.update(got)
-            model.setdefault(me_key, me_seq)
+            model.setdefault(me_key, me_seq)        # (an own entry of 0 or less does not show in the vector)
             raised = any(got.get(k_, 0) > before.get(k_, 0) for k_ in got if k_ != me_key or published_in_cb is None)
             if published_in_cb is not None:
                 em = emitted_since(n_sent)
@@ -503,7 +504,7 @@ def _ops():
 
 
 def _case():
-    return st.fixed_dictionaries({'start_seq': st.integers(0, 3), 'awaiting_validator': st.booleans(), 'publish_before_start': st.sampled_from([0, 0, 0, 1, 2]), 'publish_in_callback': st.sampled_from([False, False, True]), 'jitter': st.lists(st.integers(0, 65535), min_size=1, max_size=4),
+    return st.fixed_dictionaries({'start_seq': st.sampled_from([0, 1, 2, 3, 0, 1, -1]), 'awaiting_validator': st.booleans(), 'publish_before_start': st.sampled_from([0, 0, 0, 1, 2]), 'publish_in_callback': st.sampled_from([False, False, True]), 'jitter': st.lists(st.integers(0, 65535), min_size=1, max_size=4),
                                   'ops': _ops()})
 
 
